@@ -116,36 +116,61 @@ def oracle(rep):
             doc = skel(root)
             if not isinstance(doc, dict):
                 continue
-            n_docs += 1
             fn = os.path.basename(f)
-            rep.count("doc:%s:%s" % (v, fn))
-            sn = camel_to_snake_case(doc)
-            back = snake_to_camel_case(sn)
-            a, b = dict(keys_at(doc)), {}
-            # positions are named by the ORIGINAL path: walk the converted documents in parallel
-            def par(x, y, path=""):
-                if isinstance(x, dict) and isinstance(y, dict):
-                    yield path, list(x.keys()), list(y.keys())
-                    for (k, sub), (k2, sub2) in zip(x.items(), y.items()):
-                        yield from par(sub, sub2, path + "/" + str(k))
-                elif isinstance(x, list) and isinstance(y, list):
-                    for sub, sub2 in zip(x, y):
-                        yield from par(sub, sub2, path + "/[]")
-            for path, orig, conv in par(doc, back):
-                if orig != conv:
-                    rep.violation("C10:doc-roundtrip:%s:%s:%s" % (v, fn, path),
-                                  "schema %s, object at %s: names %r come back as %r when the whole document is converted" % (
-                                      fn, path or "/", orig, conv),
-                                  {"kind": "document", "version": v, "file": fn, "path": path, "names": orig, "back": conv,
-                                   "theorem": "C10_roundtrip (whole documents: Names.rekey)"})
-            for path, orig, conv in par(doc, sn):
-                badk = [k for k in conv if not (isinstance(k, str) and k.isidentifier() and k == k.lower() and k.isascii()
-                                                and not keyword.iskeyword(k))]
-                if badk or len(set(conv)) != len(set(orig)):
-                    rep.violation("C10:doc-identifier:%s:%s:%s" % (v, fn, path),
-                                  "schema %s, object at %s: converted as part of the whole document the names become %r" % (fn, path or "/", conv),
-                                  {"kind": "document", "version": v, "file": fn, "path": path, "names": orig, "snake": conv,
-                                   "theorem": "C10_roundtrip / C10_injective (whole documents)"})
+
+            def thin(x, keep):
+                """the same document with only the leaves `keep` selects (containers always stay): objects all of whose
+                own names are single words, or that hold one property only, above objects with multi-word names"""
+                if isinstance(x, dict):
+                    return {k: thin(sub, keep) for i, (k, sub) in enumerate(x.items()) if isinstance(sub, (dict, list)) or keep(i, k)}
+                if isinstance(x, list):
+                    return [thin(sub, keep) for sub in x]
+                return x
+            def upper(x, d):
+                """only single-word names in the upper d levels, everything below them"""
+                if isinstance(x, dict):
+                    return {k: upper(sub, d - 1) for k, sub in x.items() if d <= 0 or k == k.lower()}
+                if isinstance(x, list):
+                    return [upper(sub, d) for sub in x]
+                return x
+            variants = [("full", doc), ("single-word-leaves", thin(doc, lambda i, k: k == k.lower())),
+                        ("no-leaves", thin(doc, lambda i, k: False)), ("even-leaves", thin(doc, lambda i, k: i % 2 == 0)),
+                        ("multi-word-leaves", thin(doc, lambda i, k: k != k.lower()))] + [
+                            ("single-word-names-in-the-upper-%d-levels" % d, upper(doc, d)) for d in (1, 2, 3, 4)]
+            for (vname, doc) in variants:
+                if vname != "full" and doc == variants[0][1]:
+                  continue
+                n_docs += 1
+                rep.count("doc:%s:%s:%s" % (v, fn, vname))
+                sn = camel_to_snake_case(doc)
+                back = snake_to_camel_case(sn)
+                if vname != "full":
+                  fn = fn.split(" ")[0] + " (%s)" % vname
+                a, b = dict(keys_at(doc)), {}
+                # positions are named by the ORIGINAL path: walk the converted documents in parallel
+                def par(x, y, path=""):
+                    if isinstance(x, dict) and isinstance(y, dict):
+                        yield path, list(x.keys()), list(y.keys())
+                        for (k, sub), (k2, sub2) in zip(x.items(), y.items()):
+                            yield from par(sub, sub2, path + "/" + str(k))
+                    elif isinstance(x, list) and isinstance(y, list):
+                        for sub, sub2 in zip(x, y):
+                            yield from par(sub, sub2, path + "/[]")
+                for path, orig, conv in par(doc, back):
+                    if orig != conv:
+                        rep.violation("C10:doc-roundtrip:%s:%s:%s" % (v, fn, path),
+                                      "schema %s, object at %s: names %r come back as %r when the whole document is converted" % (
+                                          fn, path or "/", orig, conv),
+                                      {"kind": "document", "version": v, "file": fn, "path": path, "names": orig, "back": conv,
+                                       "theorem": "C10_roundtrip (whole documents: Names.rekey)"})
+                for path, orig, conv in par(doc, sn):
+                    badk = [k for k in conv if not (isinstance(k, str) and k.isidentifier() and k == k.lower() and k.isascii()
+                                                    and not keyword.iskeyword(k))]
+                    if badk or len(set(conv)) != len(set(orig)):
+                        rep.violation("C10:doc-identifier:%s:%s:%s" % (v, fn, path),
+                                      "schema %s, object at %s: converted as part of the whole document the names become %r" % (fn, path or "/", conv),
+                                      {"kind": "document", "version": v, "file": fn, "path": path, "names": orig, "snake": conv,
+                                       "theorem": "C10_roundtrip / C10_injective (whole documents)"})
     rep.coverage["whole_documents"] = n_docs
     # data types AT THE POSITIONS where the payload classes use them (walk from each request / response class through
     # its annotations into the schema node of that position)
